@@ -105,9 +105,18 @@ def main():
     def h_kdf(e): e[9]['out'][33] ^= 1; return 10
     def h_pb(e): e[10]['out'][32] ^= 2; return 11
     def h_drop(e): del e[4]; return 5                # dropping an update: the finalize (now line 5) no longer matches
+    def h_evals(e): e[2]['evals'] = 2; return 3      # the object argument was evaluated twice (a macro naming it twice)
     corrupt_suite(wd, 'TV_Hash', ev, [("digest bit flipped", h_dig), ("logged chunk altered", h_chunk), ("free leaves 4 bytes", h_free),
                                       ("HMAC byte flipped", h_mac), ("HKDF second block byte flipped", h_kdf),
-                                      ("PBKDF2 33rd byte flipped", h_pb), ("update event dropped", h_drop)])
+                                      ("PBKDF2 33rd byte flipped", h_pb), ("update event dropped", h_drop), ("argument evaluated twice", h_evals)])
+    # a relocated state object: the move itself is an event; without it the finalize on the new object has no history
+    evm, _ = run_driver(exe, ["reset id=r", "hinit id=a obj=0", "hupdate id=b obj=0 d=010203", "hmove id=m obj=0 to=3", "hupdate id=c obj=3 d=0405",
+                              "hfinal id=f obj=3"])
+    for e in evm:
+        if e['e'] in ('HUpdate', 'HFinal'): e['op'] = 0
+
+    def hm_drop(e): del e[3]; return 4
+    corrupt_suite(wd, 'TV_Hash', evm, [("move event dropped", hm_drop)])
     # ---------------- TV_Prng
     seed = '11' * 32
     ev, _ = run_driver(exe, ["reset id=r", f"script clear=1 items=full:{seed}/short:0102/full:{'22' * 32}", "pinit id=p1 obj=0 custom=0a src=cb",
@@ -122,6 +131,14 @@ def main():
     def p_short(e): e[3]['ent'][0]['bytes'][0] ^= 1; return 4
     corrupt_suite(wd, 'TV_Prng', ev, [("output byte flipped", p_out), ("seeded status flipped", p_stat), ("entropy request not logged", p_ent),
                                       ("request position moved", p_at), ("delivered entropy byte altered", p_short)])
+    evj, _ = run_driver(exe, ["reset id=r", "script clear=1 items=", "pinject id=j obj=0 kind=wrap counter=32700 seed=7", "pgen id=g obj=0 size=64"])
+    for e in evj:
+        if e['e'].startswith('P'): e['ctl'] = 0
+
+    def j_cnt(e): e[1]['counter'] -= 1; return 3      # the injected state as logged differs from what was injected: the generate no longer matches
+    def j_v(e): e[1]['V'][31] ^= 1; return 3
+    if evj[1].get('e') == 'PInject':
+        corrupt_suite(wd, 'TV_Prng', evj, [("injected counter altered", j_cnt), ("injected V altered", j_v)])
     # ---------------- TV_Obs / TV_Perm
     ev, _ = run_driver(exe, ["reset id=r", "clean id=z size=5 o=3", f"perm id=x v=128 rounds=5 s={'00' * 16} k={K}", "hash id=h m=01"])
 
